@@ -514,3 +514,7 @@ def check(run, replay=None):
     run.require_counter("parameter_files_through_indexer", 20)
     run.require_counter("parameter_ints_beyond_2^53", 5)
     run.require_counter("grain_text_roundtrips", 30)
+
+
+# workloads added in seeding rounds 7-10 (DESIGN.md sections 13.9-13.12)
+LEVEL_TEXT = LEVEL_TEXT + ' Later additions: the print precision of a title is the pinned format table (vlib/pinned_columnfile_formats.json); parameter files carried through indexer.loadpars / savepars.'
